@@ -17,6 +17,7 @@ LEVEL_TEXT = ("seeded search over operation histories on a simulated medium: eve
 LEVEL_NOTE = ("trusts the SimFS text layer to behave like open(): volatile until close/flush, newline translation; "
               "input shapes are those of the seeded generator")
 RUNS = {"quick": 12000, "thorough": 300000}
+OPTIMIZED_PASS = {"quick": 600, "thorough": 6000}   # extra runs under PYTHONOPTIMIZE=1 (assert statements removed)
 RULE = ("seeded histories of 1-7 operations (write via path/stream, overwrite, unacknowledged "
         "ENOSPC write or writer crash + retry, restart, read via path/stream with MAC checking on/off) over a "
         "simulated medium with 1-3 file names; a run is non-trivial when at least one acknowledged "
@@ -25,7 +26,7 @@ REAL = ["bec2format.bf3file (writer, reader, text envelope)", "bec2format.bytes_
         "register_crypto_plugin.AES128Proxy", "pyaes"]
 STUBS = ["medium: SimFS/SimTextWriter/SimTextReader (volatile until close/flush, CRLF translation)",
          "thread scheduling of the concurrent-callers arm: Sched (sim/sched.py, sim/conc.py)"]
-PROBES = ["concurrent-callers", "concurrent-callers-same-key", "rewrite-of-read-back-object", "unchecked-read-with-other-key", "read-after-overwrite-shorter", "read-after-failed-write-retry", "crlf-on-medium",
+PROBES = ["runs-with-assertions-disabled", "file-of-several-hundred-KiB", "same-component-object-twice", "more-than-255-components", "concurrent-callers", "concurrent-callers-same-key", "rewrite-of-read-back-object", "unchecked-read-with-other-key", "read-after-overwrite-shorter", "read-after-failed-write-retry", "crlf-on-medium",
           "payload-multiple-of-16", "payload-trailing-zero", "writer-rejected-oversize",
           "read-after-restart"]
 ASSUMPTIONS = ["input breadth is that of the seeded generator (sampling)",
@@ -45,6 +46,14 @@ def gen(st, tier):
         return {"conc": True, "objs": [G.bf3_spec(w, max_comps=2, max_len=70) for _ in range(n)],
                 "keys": [k if w.random() < 0.8 else G.session_key_spec(w) for _ in range(n)],
                 "preempt": pre, "choices": ch}
+    if w.random() < 0.0004:
+        # one very large image (hundreds of KiB of hex text)
+        big = {"comments": [["FirmwareId", "1100"]], "components": [
+            {"desc": [[0xC3, "02"]], "blob": {"len": w.randint(400000, 420000), "fill": "rand", "tail0": 0,
+                                              "s": w.getrandbits(32)}, "alen": None, "enc": False}]}
+        return {"objs": [big], "keys": [G.session_key_spec(w)], "huge": True,
+                "ops": [["write", "a.bf3", 0, 0, w.choice(["path", "stream"]), None],
+                        ["read", "a.bf3", w.choice(["path", "stream"]), True, None]]}
     nobj = w.choice([1, 1, 2, 3])
     objs = [G.bf3_spec(w, p_enc=0.0, max_len=300 if w.random() < 0.8 else 1500,
                          oversize_ok=True) for _ in range(nobj)]
@@ -155,6 +164,8 @@ def run(case):
     acked = {}  # name -> (obj index, key index) | None
     hist = {}   # name -> info about history for probes
     lastread = {}  # name -> (object returned by the last read, obj index)
+    if case.get("huge"):
+        out.probes["file-of-several-hundred-KiB"] += 1
     try:
         for op in case["ops"]:
             if op[0] == "restart":
@@ -284,6 +295,10 @@ def run(case):
                 out.probes["read-after-failed-write-retry"] += 1
             if hh.get("restarted"):
                 out.probes["read-after-restart"] += 1
+            if spec.get("alias_first"):
+                out.probes["same-component-object-twice"] += 1
+            if len(model["components"]) > 255:
+                out.probes["more-than-255-components"] += 1
             for c in model["components"]:
                 if len(c["blob"]) % 16 == 0:
                     out.probes["payload-multiple-of-16"] += 1
